@@ -5,13 +5,65 @@ UNITS['H5Group_removeAllLinks'] = dict(file='backend/hdf5/h5x/H5Group.cpp', loca
     loops={0: '__CPROVER_assigns(gname, gh_links, gh_deleted)\n'
               '__CPROVER_loop_invariant(gh_links >= 0 && gh_links < 1000000000L && gh_deleted >= 0 && gh_deleted < 1000000000L && gh_links + gh_deleted == __CPROVER_loop_entry(gh_links) + __CPROVER_loop_entry(gh_deleted) && ((gname.id == 0) == (gh_links == 0)))\n'
               '__CPROVER_decreases(gh_links)'})
+from cxx2c import Tok, P, seq_at, fire, match_close, tokenize
+def children_loop(elt):
+    def rule(ctx, toks):
+        """for (auto &child : ENTITY.children())  (range-for over a call result)  ->  vec_<T> rng_ = ENTITY.children(); for (T &child : rng_)"""
+        out = []; i = 0
+        while i < len(toks):
+            if toks[i].t == 'for' and seq_at(toks, i + 1, ['(', 'auto', '&']) and toks[i + 5].t == ':':
+                e = match_close(toks, i + 1)
+                ctx.env['rng_'] = ('vec_' + elt, False)
+                out.extend(tokenize('%svec_%s rng_ =' % (toks[i].ws, elt))); out.extend(toks[i + 6:e]); out.extend(tokenize('; for (%s &%s : rng_)' % (elt, toks[i + 4].t)))
+                i = e + 1; fire(ctx, 'range-for-over-call'); continue
+            out.append(toks[i]); i += 1
+        return out
+    return rule
+def shared_ptr_entity(ctx, toks):
+    """std::shared_ptr<base::ISource> isource = block()->getEntity<base::ISource>(KEY);  ->  Source isource = getSourceEntity(KEY);   (a back-end object handle as an entity record)"""
+    out = []; i = 0
+    while i < len(toks):
+        if toks[i].t == 'shared_ptr' and toks[i + 1].t == '<':
+            j = i + 2
+            while toks[j].t != '>': j += 1
+            k = len(out)
+            while k and out[k - 1].t in ('std', '::'): k -= 1
+            ws = out[k].ws if k < len(out) else toks[i].ws
+            del out[k:]; out.append(Tok('id', 'Source', ws)); i = j + 1; fire(ctx, 'shared-ptr-handle'); continue
+        if seq_at(toks, i, ['block', '(', ')', '->', 'getEntity', '<']):
+            j = i + 6
+            while toks[j].t != '>': j += 1
+            out.append(Tok('id', 'getSourceEntity', toks[i].ws)); i = j + 1; fire(ctx, 'get-entity'); continue
+        out.append(toks[i]); i += 1
+    return out
+def unlink_stub(ctx, toks):
+    """in these units H5Group::removeAllLinks is the ghost record H5Group_unlink_all (its own contract: c04_links.h)"""
+    for t in toks:
+        if t.k == 'id' and t.t == 'H5Group_removeAllLinks': t.t = 'H5Group_unlink_all'
+    return toks
+STL = {0: '__CPROVER_assigns(_i_child, gh_child_deletes)\n__CPROVER_loop_invariant(_i_child <= rng_.n && gh_child_deletes == _i_child)\n__CPROVER_decreases(rng_.n - _i_child)'}
+def st(file, cls, meth, elt, hdr, **kw):
+    d = dict(file=file, cls=cls, cls_file=hdr, classes=[cls, 'Source', 'Section', 'H5Group', 'nstring'], locator=r'bool\s+%s::%s\s*\((?=\s*const\s+(?:std::)?string\s*&\s*name_or_id)' % (cls, meth),
+             pre_rules=[children_loop(elt)], post_rules=[unlink_stub], loops=STL, bounded_twin=True); d.update(kw); return d
+STUNITS = {
+    'SourceHDF5_deleteSource': st('backend/hdf5/SourceHDF5.cpp', 'SourceHDF5', 'deleteSource', 'Source', 'backend/hdf5/SourceHDF5.hpp', member_functors={'source_group': 'SourceHDF5_source_group'}),
+    'SectionHDF5_deleteSection': st('backend/hdf5/SectionHDF5.cpp', 'SectionHDF5', 'deleteSection', 'Section', 'backend/hdf5/SectionHDF5.hpp', member_functors={'section_group': 'SectionHDF5_section_group'}),
+    'FileHDF5_deleteSection': st('backend/hdf5/FileHDF5.cpp', 'FileHDF5', 'deleteSection', 'Section', 'backend/hdf5/FileHDF5.hpp', member_types={'metadata': 'H5Group'}),
+    'BlockHDF5_deleteSource': st('backend/hdf5/BlockHDF5.cpp', 'BlockHDF5', 'deleteSource', 'Source', 'backend/hdf5/BlockHDF5.hpp', pre_rules=[shared_ptr_entity, children_loop('Source')], inherited_methods=['getSourceEntity'], member_functors={'source_group': 'BlockHDF5_source_group'}),
+}
+UNITS.update(STUNITS)
 JOBS = [j for j in c03.JOBS if j['name'] in UNITS]
 JOBS.append(dict(name='H5Group_removeAllLinks', bodies=['H5Group_removeAllLinks'], enforce=['H5Group_removeAllLinks'], replace=[], includes=['c04_links.h'], loop_contracts=True,
                  extra_c='int gh_child_exists; long gh_links, gh_deleted; int gh_some_path;\n', expect_kinds=['postcondition', 'loop_invariant_base', 'loop_invariant_step', 'loop_decreases'], timeout=300))
 JOBS.append(dict(name='H5Group_removeAllLinks[bounded]', bodies=['H5Group_removeAllLinks'], enforce=['H5Group_removeAllLinks'], replace=[], includes=['c04_links.h'], loop_contracts=False,
                  defines=['NIX_NO_LOOP_CONTRACTS', 'C04_BOUNDED=3'], cbmc_flags=['--unwind', '5', '--unwinding-assertions'], extra_c='int gh_child_exists; long gh_links, gh_deleted; int gh_some_path;\n',
                  expect_kinds=['postcondition', 'unwind'], timeout=300, bounded='at most 3 hard links, loop unwound completely (twin without loop contract: robust against a rewritten loop)'))
-SPEC = dict(c03.SPEC, contracts=c03.SPEC['contracts'] + ['c04_links.h'], units=UNITS, jobs=JOBS)
+STX = 'int gh_group_present, gh_found, gh_unlink_answer, gh_key, gh_lookups, gh_unlinks, gh_unlink_name, gh_unlink_after_children, gh_children_asked; size_t gh_child_deletes, gh_nchildren; Ent *gh_children; Ent gh_entity;\n'
+for fn in STUNITS:
+    JOBS.append(dict(name=fn, bodies=[fn], enforce=[fn], replace=[], includes=['c04_subtree.h'], loop_contracts=True, extra_c=STX, expect_kinds=['postcondition', 'loop_invariant_base', 'loop_invariant_step'], timeout=300))
+    JOBS.append(dict(name=fn + '[bounded]', bodies=[fn], enforce=[fn], replace=[], includes=['c04_subtree.h'], loop_contracts=False, defines=['NIX_NO_LOOP_CONTRACTS', 'C04_BOUNDED=3'],
+                     cbmc_flags=['--unwind', '5', '--unwinding-assertions'], extra_c=STX, expect_kinds=['postcondition', 'unwind'], timeout=300, bounded='at most 3 children, loop unwound completely (twin without loop contract)'))
+SPEC = dict(c03.SPEC, contracts=c03.SPEC['contracts'] + ['c04_links.h', 'c04_subtree.h'], units=UNITS, jobs=JOBS)
 SPEC['trusted_base'] = list(c03.SPEC['trusted_base']) + ['ASSUMED (HDF5 manual): H5Iget_name returns a path of the object while a hard link exists and an empty name afterwards; H5Ldelete removes exactly the link it is given - modelled as a ghost link counter']
 SPEC['assumptions'] = ['KERNEL ONLY: decided are (1) H5Group::removeAllLinks removes EVERY hard link of an existing child (terminates with link count 0, for any number of links) and touches nothing for a missing child; '
                        '(2) deletions by handle (File::deleteBlock/deleteSection, Block::deleteSource, Source::deleteSource, Section::deleteSection/deleteProperty) resolve the handle by its id. '
